@@ -1,6 +1,6 @@
 (* C11 — Scale and Impute apply exactly the statistics of their fitting window.  Property theorems only. *)
 From Coq Require Import ZArith List Bool QArith.
-From Coba Require Import Common.Stats C11.Model C11.Proofs.
+From Coba Require Import Common.Stats C11.Model C11.Proofs C11.ProofsSparse.
 Import ListNotations.
 Open Scope Q_scope.
 
@@ -51,6 +51,33 @@ Theorem impute_indicator_width_uniform : forall st ind usng first rest j,
             forall j', (j' < length rows)%nat -> length (nth j' (impute_dense st ind usng rows) []) = (length (nth j' rows []) + k)%nat.
 Proof. exact impute_dense_indicator_count. Qed.
 Print Assumptions impute_indicator_width_uniform.
+
+(* Scale, sparse contexts: every entry (key, x) of every row becomes (key, (x+shift)*scale) with the statistics of the key's column over the window, a row that
+   does not hold the key counting as 0; keys that do not occur in the window, or whose value in the first row is not numeric, are left alone; no entry is
+   added, dropped or re-keyed *)
+Theorem scale_sparse_applies : forall sh sc usng first rest j i,
+  let rows := first :: rest in
+  (j < length rows)%nat -> (i < length (nth j rows []))%nat ->
+  let p := nth i (nth j rows []) (0%Z, CMiss) in
+  length (scale_sparse sh sc usng rows) = length rows /\
+  nth i (nth j (scale_sparse sh sc usng rows) []) (0%Z, CMiss) =
+  (fst p, apply_ss (if fitted (unscalable_keys first) (window usng rows) (fst p) then shift_and_scale sh sc (scolumn (window usng rows) (fst p)) else None) (snd p)).
+Proof. exact scale_sparse_entry. Qed.
+Print Assumptions scale_sparse_applies.
+
+(* Impute, sparse contexts: a missing value of a fitted key becomes the statistic of the values the window holds for that key, padded with zeros to the window
+   length; no other value changes; every row receives the same number of indicator entries *)
+Theorem impute_sparse_spec : forall st ind usng first rest j i,
+  let rows := first :: rest in
+  (j < length rows)%nat -> (i < length (nth j rows []))%nat ->
+  let p := nth i (nth j rows []) (0%Z, CMiss) in
+  length (impute_sparse st ind usng rows) = length rows /\
+  nth i (nth j (impute_sparse st ind usng rows) []) (0%Z, CMiss) =
+  (fst p, match snd p, (if fitted (unimputable_keys st first) (window usng rows) (fst p) then imputation st (spadded (window usng rows) (fst p)) else None)
+          with CMiss, Some v => v | c, _ => c end) /\
+  exists extra, forall j', (j' < length rows)%nat -> length (nth j' (impute_sparse st ind usng rows) []) = (length (nth j' rows []) + extra)%nat.
+Proof. exact impute_sparse_entry. Qed.
+Print Assumptions impute_sparse_spec.
 
 (* the former test isinstance(v,(int,float) or v is None) excluded a column whose first value is
    missing; with the repaired test it is imputed *)
